@@ -101,6 +101,14 @@ HOST_KINDS = ['pub4', 'pub4', 'pub4', 'pub4', 'pub4', 'pub4', 'name', 'name', 'p
               'onion', 'onion']
 
 
+def pub6(a, b, i):
+    '''a, b pick the /56; within it the address varies in every part of the 72 host bits: the
+    low byte of the 4th group (other /64s of one routed /56), the top of the interface id, the
+    low bits.'''
+    return (f'2001:4860:{a % 2:x}:{b % 2:x}{[0, 0, 1, 0x80, 0xff][i % 5]:02x}:'
+            f'{[0, 0, 0x8000, 0x0200][i % 4]:x}:0:0:{i + 1:x}')
+
+
 def make_host(kind, i, a, b):
     '''Unique host per index i; a, b pick the bucket.'''
     lo, hi = i % 250 + 1, i // 250
@@ -119,7 +127,7 @@ def make_host(kind, i, a, b):
     if kind == 'unspec4':
         return '0.0.0.0'
     if kind == 'pub6':
-        return f'2001:4860:{a % 2:x}:{b % 2:x}00::{i + 1:x}'
+        return pub6(a, b, i)
     if kind == 'ula6':
         return f'fd00::{i + 1:x}'
     if kind == 'mapped6':
@@ -147,7 +155,7 @@ def connected_ip(kind, host, mode, a, b, i):
     if mode == 1:
         return f'{[8, 8, 9][a % 3]}.{[8, 9, 8][a % 3]}.{b % 2}.{i % 250 + 1}'
     if mode == 2:
-        return f'2001:4860:{a % 2:x}:{b % 2:x}00::{i + 1:x}'
+        return pub6(a, b, i)
     return f'10.0.0.{i % 250 + 1}'
 
 
